@@ -66,14 +66,17 @@ def oracle(ref_pos, q_pos, q_len, shift, start, d, rev, out):
     return sorted(set(bad))
 
 
-def run_case(case):
+def run_case(case, engines=None):
+    """engines: {maxDistance: AlignerEngine} shared by the cases of a chunk - in the program ONE engine serves every query and every fragment
+    (fragments share their molecule's id and length), so the pairing step must be a function of its arguments whatever it was asked before"""
     ref_pos, q_pos, q_len, shift, start, d, rev = case
     from src.alignment.aligner import AlignerEngine
     from src.correlation.optical_map import OpticalMap
     try:
         with time_limit(5):
-            out = AlignerEngine(d).align(OpticalMap(1, max(ref_pos, default=0) + 1, list(ref_pos)),
-                                         OpticalMap(7, q_len, list(q_pos), shift), start, start + q_len, rev)
+            eng = AlignerEngine(d) if engines is None else engines.setdefault(d, AlignerEngine(d))
+            out = eng.align(OpticalMap(1, max(ref_pos, default=0) + 1, list(ref_pos)),
+                            OpticalMap(7, q_len, list(q_pos), shift), start, start + q_len, rev)
     except CaseTimeout:
         return case, ['exception:timeout'], 0
     except Exception as e:
@@ -84,11 +87,13 @@ def run_case(case):
 
 def run_chunk(cases):
     out, nt = [], 0
+    engines, last = {}, {}
     for c in cases:
-        case, bad, npairs = run_case(c)
+        case, bad, npairs = run_case(c, engines)
         nt += 1 if npairs >= 2 else 0
         if bad:
-            out.append((case, bad))
+            out.append((case, bad, last.get(c[5])))        # with the call the same engine served just before (replay needs the history)
+        last[c[5]] = c
     return len(cases), nt, out[:10]
 
 
@@ -123,16 +128,17 @@ def bounded(repo, tier, seed):
     res = pmap(run_chunk, chunks, repo)
     viol = {}
     for r in res:
-        for case, bad in r[2]:
+        for case, bad, prev in r[2]:
             key = f"{FID}::ensures::{bad[0]}"
             v = dict(key=key, blame=FID, input=dict(reference=list(case[0]), query=list(case[1]), queryLength=case[2], shift=case[3],
-                                                    seed=case[4], maxDistance=case[5], reverse=case[6]), observed=bad, required='C12 statement')
+                                                    seed=case[4], maxDistance=case[5], reverse=case[6], previous_call_on_the_same_engine=prev),
+                     observed=bad, required='C12 statement')
             if key not in viol or len(case[0]) + len(case[1]) < len(viol[key]['input']['reference']) + len(viol[key]['input']['query']):
                 viol[key] = v
     return result(sum(r[0] for r in res), sum(r[1] for r in res),
                   "exhaustive lattice: reference label multisets of <=3 labels on a 100-bp grid (incl. coincident labels), query multisets of <=3 labels, "
                   "seed offsets -100/0/100/150, maxDistance 0/50/100 (labels exactly at maxDistance, ties), both strands, fragments with shift 3; "
-                  "plus random larger cases; non-trivial = at least 2 pairs", [dict(zip(('reference', 'query', 'queryLength', 'shift', 'seed', 'maxDistance', 'reverse'), c)) for c in allc[4000:4003]],
+                  "plus random larger cases; the cases of a chunk share one engine per maxDistance (as all queries and fragments do in the program); non-trivial = at least 2 pairs", [dict(zip(('reference', 'query', 'queryLength', 'shift', 'seed', 'maxDistance', 'reverse'), c)) for c in allc[4000:4003]],
                   list(viol.values())[:5], exhaustive=True, bounds="<=3 reference and <=3 query labels on the lattice")
 
 
@@ -140,5 +146,9 @@ def replay(repo, rp):
     from bcheck.common import use_repo
     use_repo(repo)
     i = rp['input']
-    case, bad, _ = run_case((tuple(i['reference']), tuple(i['query']), i['queryLength'], i['shift'], i['seed'], i['maxDistance'], i['reverse']))
+    engines = {}
+    if i.get('previous_call_on_the_same_engine'):
+        p = i['previous_call_on_the_same_engine']
+        run_case((tuple(p[0]), tuple(p[1]), p[2], p[3], p[4], p[5], p[6]), engines)
+    case, bad, _ = run_case((tuple(i['reference']), tuple(i['query']), i['queryLength'], i['shift'], i['seed'], i['maxDistance'], i['reverse']), engines)
     return (not bad), bad
